@@ -66,10 +66,12 @@ Definition hoist_setup (d : decl) : list ev :=
   | KLed | KRGB | KUltra | KSerial => []
   end.
 
-(* emit() pass 1 over the top-level nodes of loop_body (lines 2814-2948) *)
+(* emit() pass 1 over the top-level nodes of loop_body (lines 2826-2960) *)
 Definition hoist_loop (d : decl) : list ev :=
   match d_kind d with
-  | KButton => match d_pins d with p :: _ => [ECfg (RPin p) 2] | [] => [] end   (* no setup sample *)
+  | KButton => match d_pins d with
+               | p :: _ => [ECfg (RPin p) 2; EUse (RPin p) false]     (* pinMode + setup sample (since 97f26e6) *)
+               | [] => [] end
   | KServo => servo_cfg (d_pins d)
   | KMotor => pm 1 (d_pins d) ++ wr (d_pins d)
   | KLed => pm 1 (d_pins d)
@@ -166,7 +168,12 @@ Definition hoist_setupD (d : decl) (seen : list key) : list ev * list key :=
 Definition hoist_loopD (d : decl) (seen : list key) : list ev * list key :=
   let nm := d_name d in
   match d_kind d with
-  | KButton => match d_pins d with p :: _ => pm_dedup nm 2 30 0 [p] seen | [] => ([], seen) end
+  | KButton => match d_pins d with
+               | p :: _ =>                                   (* emitter.py 2837-2847: pinMode by key, then the *)
+                   let (t, s') := pm_dedup nm 2 30 0 [p] seen in      (* start-up sample once per name *)
+                   if kmem (nm, 0, 70) s' then (t, s')
+                   else (t ++ [EUse (RPin p) false], (nm, 0, 70) :: s')
+               | [] => ([], seen) end
   | KServo => if kmem (nm, 0, 71) seen then ([], seen) else (servo_cfg (d_pins d), (nm, 0, 71) :: seen)
   | KMotor => let (t, s') := pm_dedup nm 1 20 1 (d_pins d) seen in (t ++ wr (d_pins d), s')
   | KLed => (pm 1 (d_pins d), seen)
@@ -481,6 +488,9 @@ Definition stS (p : program) : tstate := adv_all (p_G p) true (st0 p) (p_setup p
 (* functions are emitted after pass 2, from copies of the dicts *)
 Definition p_tabF (p : program) : list decl := ts_tab (adv_all (p_G p) false (stS p) (p_loop p)).
 
+(* ButtonPoll (emitter.py 1110-1128): next = digitalRead(pin); value = next; if (next && !prev) handler(); prev = next.
+   Since 97f26e6 the cached value is stored before the handler is called; is_pressed() reads that cache and touches no
+   pin, so the order is not visible in this event vocabulary (it is C15's clause). *)
 Definition poll_one (inp : Z -> nat -> bool) (p : program) (b : name) (h : hstate) : hstate * list ev :=
   match button_decl p b with
   | Some d =>
@@ -528,7 +538,8 @@ Definition hoists (p : program) : list ev := fst (hoistsD p).
 Definition v0 : vstate := mkV [] false.
 Definition h0 : hstate := mkH [] [].
 
-(* button_init_emitted: only the first setup declaration of a Button name takes the setup sample *)
+(* button_init_emitted: only the first top-level declaration of a Button name (setup_body first, then the top of
+   loop_body) takes the start-up sample *)
 Fixpoint first_buttons (seen : list name) (l : list decl) : list decl :=
   match l with
   | [] => []
@@ -539,7 +550,7 @@ Fixpoint first_buttons (seen : list name) (l : list decl) : list decl :=
   end.
 
 Definition setup_h (inp : Z -> nat -> bool) (p : program) : hstate :=
-  fold_left (fun h d => setup_sample inp d h) (first_buttons [] (p_top_setup p)) h0.
+  fold_left (fun h d => setup_sample inp d h) (first_buttons [] (p_top_setup p ++ p_top_loop p)) h0.
 
 Definition run_setup (m : mode) (inp : Z -> nat -> bool) (p : program) : vstate * hstate * list ev :=
   match run_annT (p_G p) m true (st0 p) (p_setup p) v0 with
